@@ -8,7 +8,7 @@
 //! union histories.  After every round:
 //! Also 100 (deep: 2000) union histories: 6 terms (some are slot-permuted copies of earlier ones, or two such copies under
 //! one node), 8 unions between them, observed after every union.
-//!  `ematch_all` / `multi_ematch` (C05): 12 patterns and 9 multi-patterns; every returned substitution binds every
+//!  `ematch_all` / `multi_ematch` (C05): 16 patterns and 9 multi-patterns; every returned substitution binds every
 //!    pattern variable, the instantiated pattern is found by `lookup` alone (nothing inserted), every multi-pattern
 //!    equation holds between the bound classes, and matching leaves node count / classes / slots untouched;
 //!  `EGraph::add_expr` (C09): re-inserting every kept term, and the same term with its free slots renamed, creates
@@ -110,7 +110,7 @@ const RULES: [(&str, &str, &str); 16] = [
     ("g-intro", "(sub ?a ?b)", "(g (sub ?a ?b))"),
     ("g-elim", "(g (g ?a))", "?a"),
 ];
-const PATS: [&str; 12] = ["(app (lam $1 ?b) ?t)", "(sub ?a ?a)", "(add ?a (add ?b ?c))", "(mul ?a zero)", "(f3 ?a ?b ?c)", "(f3 ?a ?a ?b)", "(lam $1 ?b)", "(lam $1 (app ?b (var $1)))", "(mul ?a ?b)", "(add ?a ?a)", "(lam $1 (lam $2 ?b))", "?x"];
+const PATS: [&str; 16] = ["(app (lam $1 ?b) ?t)", "(sub ?a ?a)", "(add ?a (add ?b ?c))", "(mul ?a zero)", "(f3 ?a ?b ?c)", "(f3 ?a ?a ?b)", "(lam $1 ?b)", "(lam $1 (app ?b (var $1)))", "(mul ?a ?b)", "(add ?a ?a)", "(lam $1 (lam $2 ?b))", "?x", "(sub ?a ?b)", "(add ?a (add ?b ?c))", "(f3 ?a ?b ?c)", "(lam $1 (sub ?a ?b))"];
 fn lookup_pattern(eg: &EG, pat: &Pattern<KL>, subst: &Subst) -> Result<AppliedId, String> {
     match pat {
         Pattern::PVar(v) => subst.get(v).cloned().ok_or(format!("?{} is not bound", v)),
@@ -306,6 +306,10 @@ fn hand_written() -> Vec<(Vec<&'static str>, Vec<(usize, usize)>)> {
         (vec!["(mul (var $1) zero)", "zero", "(mul (var $2) (var $3))", "(mul (var $3) (var $2))"], vec![(0, 1), (2, 3)]),
         // a symmetric class loses a slot outside the orbit of its symmetry: the symmetry must survive
         (vec!["(f3 (var $1) (var $2) (var $3))", "(f3 (var $2) (var $1) (var $3))", "(f3 (var $1) (var $2) zero)"], vec![(0, 1), (0, 2)]),
+        // a node with a SYMMETRIC child whose slots are tied to something outside the node (a sibling, a binder above it, a
+        // second such node in the same match)
+        (vec!["(add (var $1) (var $2))", "(add (var $2) (var $1))", "(app (lam $1 (add (var $1) (var $2))) (var $2))", "(sub (add (var $1) (var $2)) (var $1))", "(mul (add (var $1) (var $2)) (add (var $2) (var $3)))", "(lam $1 (add (var $1) (var $2)))", "(lam $3 (sub (add (var $3) (var $2)) (var $3)))", "(f3 (add (var $1) (var $2)) (var $2) (add (var $3) (var $1)))"], vec![(0, 1)]),
+        (vec!["(mul (var $1) (var $2))", "(mul (var $2) (var $1))", "(lam $1 (lam $2 (sub (mul (var $1) (var $2)) (var $2))))", "(app (lam $1 (mul (var $1) (var $3))) (mul (var $3) (var $2)))", "(add (mul (var $1) (var $2)) (add (mul (var $2) (var $3)) (var $1)))"], vec![(0, 1)]),
         // the same slot in two places where a multi-pattern names two different slots
         (vec!["(sub (var $1) (var $1))", "(sub (var $1) (var $2))", "(lam $1 (var $1))", "(lam $1 (var $2))", "(add (var $3) (var $3))", "(mul (var $1) (mul (var $1) (var $2)))", "(lam $3 (app (var $3) (var $3)))", "(lam $3 (app (var $3) (var $1)))"], vec![(0, 0)]),
         // shadowing binders, the same name bound twice, a bound name that is also free elsewhere, repeated free slots
